@@ -636,6 +636,43 @@ def u_authpeer(ctx, u):
     cases = _auth_cases13(rng) if pname == 'tls13' else _auth_cases_cbc(rng)
     cases = [c for i, c in enumerate(cases) if i % u['nslices'] == u['slice']]
     delivered = 0
+    if pname == 'tlcp' and u['slice'] == 0:
+        # the encrypted pre-master secret is a ciphertext anyone can make for the server's public encryption key: well-formed
+        # SM2 ciphertexts whose plaintext is shorter or longer than the 48 octets the protocol prescribes (up to the 255 the
+        # ciphertext format allows), followed by the rest of a consistent client flight
+        for n in (1, 2, 47, 49, 50, 64, 100, 128, 200, 254, 255):
+            c_end, s_end = socket.socketpair()
+            srv = T.Endpoint(ctx, srv_ctx, s_end, 's', rng.randrange(1, 1 << 30), False)
+            th = threading.Thread(target=srv.handshake)
+            th.start()
+            try:
+                ctx.begin(['authpeer', pname, 'pre-master-secret-of-%d-octets' % n])
+                cl = HT.Client(c_end, ch[0], R.pub(creds.enc_priv), rng)
+                if cl.start():
+                    cl.send_plain(cl.client_key_exchange(pms=(cl.version + rng.randbytes(254))[:n]))
+                    cl.change_cipher_spec()
+                    cl.finished()
+                    delivered += 1
+            except (OSError, ValueError):
+                pass
+            th.join(30)
+            if th.is_alive():
+                try:
+                    c_end.shutdown(socket.SHUT_RDWR)
+                except OSError:
+                    pass
+                th.join(10)
+            ctx.check(not th.is_alive(), 'hang:tlcp-server-after-odd-sized-pre-master-secret', size=n)
+            ctx.stat('authpeer_pms_size_%s' % ('completed' if srv.ret == 1 else 'refused'))
+            ctx.ok()
+            ctx.nontrivial('authpeer', pname, 'pms-size', n)
+            ctx.stat('authpeer_pms_size_cases')
+            for sk in (c_end, s_end):
+                try:
+                    sk.close()
+                except OSError:
+                    pass
+            srv.conn.free()
     for case in cases:
         name = case[0]
         c_end, s_end = socket.socketpair()
